@@ -89,6 +89,7 @@ Inductive rout :=
 Record lay := {
   ly_L : layout;
   ly_kinds : list (string * ckind);
+  ly_nba : bool;                (* Config.allow_deserialization_not_by_alias *)
   ly_sigpos : list string;      (* inspect.signature(cls.__init__): positional-or-keyword names *)
   ly_sigkw : list string        (* keyword-only names *)
 }.
@@ -101,12 +102,13 @@ Definition lay_ok (y: lay) : bool :=
 
 Definition run_ok (y: lay) (d: inp) (r: rout) : bool :=
   let cv := conv_of (ly_kinds y) in
-  match decode cv (ly_L y) d 0, r with
+  match decode cv (ly_nba y) true (ly_L y) d 0, r with
   | OMissing f, RMissing g => String.eqb f g
   | OTypeError, RTypeError => true
   | OOk a1 c1, ROk e1 l2 =>
       attrs_eqb a1 e1 &&
-      match decode cv (ly_L y) d c1 with
+      match decode cv (ly_nba y) false (ly_L y) d 0 with OOk b1 _ => attrs_eqb b1 e1 | _ => false end &&
+      match decode cv (ly_nba y) true (ly_L y) d c1 with
       | OOk a2 _ => nats_eqb (labels a2) l2 && attrs_eqb (strip a2) (strip a1)
       | _ => false
       end
@@ -115,7 +117,7 @@ Definition run_ok (y: lay) (d: inp) (r: rout) : bool :=
 
 (* flags returned to the harness: 0 = agree, 1 = model and implementation differ, 2 = layout not in domain /
    signature differs *)
-Definition dummy_lay : lay := {| ly_L := []; ly_kinds := []; ly_sigpos := []; ly_sigkw := [] |}.
+Definition dummy_lay : lay := {| ly_L := []; ly_kinds := []; ly_nba := false; ly_sigpos := []; ly_sigkw := [] |}.
 
 Definition case_ok (lays: list lay) (c: nat * inp * rout) : bool :=
   match c with (i, d, r) =>
@@ -127,7 +129,7 @@ Definition ref_agrees (lays: list lay) (c: nat * inp * rout) : bool :=
   match c with (i, d, _) =>
     let y := nth i lays dummy_lay in
     let cv := conv_of (ly_kinds y) in
-    match decode cv (ly_L y) d 0, ref_decode cv (ly_L y) d 0 with
+    match decode cv (ly_nba y) true (ly_L y) d 0, ref_decode cv (ly_nba y) (ly_L y) d 0 with
     | OMissing f, OMissing g => String.eqb f g
     | OTypeError, OTypeError => true
     | OOk a1 c1, OOk a2 c2 => attrs_eqb a1 a2 && Nat.eqb c1 c2
@@ -135,6 +137,6 @@ Definition ref_agrees (lays: list lay) (c: nat * inp * rout) : bool :=
     end
   end.
 
-Definition mkm n k fld par kw df anc own ns dff nul idt : member :=
-  Build_member n k fld par kw df anc own ns dff nul idt.
+Definition mkm n k fld par kw df anc own ns dff nul idt ali unl : member :=
+  Build_member n k fld par kw df anc own ns dff nul idt ali unl.
 Definition bf d i k : bfield := Build_bfield d i k.
